@@ -267,7 +267,7 @@ func (e *Exec) constGlobalVal(g *ssa.Global, t types.Type) Val {
 	s := e.ctx.sortOf(t)
 	if _, ok := e.ctx.declared[name]; !ok {
 		e.ctx.declare(name, s)
-		e.ctx.assume(e.valueFacts(name, t, e.nextRef0))
+		e.ctx.assumeGlobal(e.valueFacts(name, t, e.nextRef0))
 		e.trust("global " + g.Pkg.Pkg.Name() + "." + g.Name() + " is assigned only by its package initialiser (checked syntactically): its value is a constant")
 	}
 	return Val{T: name, S: s, GoT: t}
